@@ -24,8 +24,8 @@ META = {
              'non-trivial = call with >= 1 array argument whose result is non-empty'),
     'require': {'purity': 8000, 'determinism': 8000, 'representation': 12000, 'link:functions': 100, 'nontrivial': 6000},
     'noscale': ('link:functions',),
-    'scale': {'quick': 1, 'thorough': 12},
-    'quick_cases': 144, 'thorough_cases': 1800,
+    'scale': {'quick': 1, 'thorough': 24},
+    'quick_cases': 144, 'thorough_cases': 3600,
     'assumptions': ['float outputs may differ by <= 8 ulp between memory layouts (NumPy picks a different dot kernel for '
                     'Fortran-ordered input: 1 ulp observed in shortest_distance_points)',
                     'the linkage clause is complete for names, module/class attributes, intra-package and uts call signatures; '
